@@ -24,11 +24,14 @@ inductive Op where
   | sEnd (n : Node)           -- eX.n
   | view (n k : Node)         -- L.n.k
   | kill (n : Node)           -- K.n
+  | follow (n : Node)         -- fX.n: a call that joins the flight held open on its executing node
+  | cancel (n : Node)         -- cX.n: the follower's context is cancelled
+  | join (n : Node)           -- jX.n: the follower's result after the flight ended
   | bad
   deriving Repr, DecidableEq
 
 inductive Out where
-  | ok (owner : Node) | pre (exec : Node) | done | busy | none | nf | eloop | badOp
+  | ok (owner : Node) | pre (exec : Node) | done | busy | none | nf | eloop | badOp | wait | cancelled
   deriving Repr, DecidableEq
 
 /-- registry log entries: node, operation -/
@@ -41,13 +44,14 @@ structure St where
   reg : Option Node            -- the registry record of the singleton's name: the node it names
   live : List Bool             -- live[m] = an instance of the singleton runs on node m (and is in m's tree)
   held : List (Node × Node)    -- spawns held inside PreStart: (calling node, executing node)
+  fol : List (Node × Node)     -- followers of a flight: (calling node, executing node); they share the leader's result
   maxLive : Nat
   started : Nat
   log : List Ev                -- reversed
   deriving Repr, DecidableEq
 
 def St.init (nn : Nat) (leader : Node := 0) : St :=
-  { views := List.replicate nn leader, reg := none, live := List.replicate nn false, held := [], maxLive := 0, started := 0, log := [] }
+  { views := List.replicate nn leader, reg := none, live := List.replicate nn false, held := [], fol := [], maxLive := 0, started := 0, log := [] }
 
 def nn (s : St) : Nat := s.views.length
 
@@ -94,13 +98,14 @@ def localEnd (s : St) (m : Node) : St :=
 
 def heldBy (s : St) (n : Node) : Bool := s.held.any (·.1 = n)
 def heldOn (s : St) (m : Node) : Bool := s.held.any (·.2 = m)
+def folBy (s : St) (n : Node) : Bool := s.fol.any (·.1 = n)
 
 def step (s : St) : Op → St × Out
   | .view n k =>
     if n < nn s && k < nn s then ({ s with views := s.views.set n k }, .done) else (s, .badOp)
   | .spawn n =>
     if !(n < nn s) then (s, .badOp)
-    else if heldBy s n then (s, .busy)
+    else if heldBy s n || folBy s n then (s, .busy)
     else
       match route s n with
       | (vis, none) => (logMembers s vis, .eloop)
@@ -112,7 +117,7 @@ def step (s : St) : Op → St × Out
           | (s', .held) => (localEnd s' m, .ok m)
   | .sBegin n =>
     if !(n < nn s) then (s, .badOp)
-    else if heldBy s n then (s, .busy)
+    else if heldBy s n || folBy s n then (s, .busy)
     else
       match route s n with
       | (vis, none) => (logMembers s vis, .eloop)
@@ -134,6 +139,33 @@ def step (s : St) : Op → St × Out
       -- PostStop; death watch: tree node removed, registry record removed BY NAME
       ({ s with live := s.live.set n false, reg := none, log := .del n :: s.log }, .done)
     else (s, .nf)
+  | .follow n =>
+    if !(n < nn s) then (s, .badOp)
+    else if heldBy s n || folBy s n then (s, .busy)
+    else
+      match route s n with
+      | (_, none) => (s, .none)
+      | (vis, some m) =>
+        if heldOn s m then
+          -- the membership reads happen, then the call parks behind the single flight of node m
+          ({ logMembers s vis with fol := (n, m) :: s.fol }, .wait)
+        else (s, .none)
+  | .cancel n =>
+    if !(n < nn s) then (s, .badOp)
+    else
+      match s.fol.find? (·.1 = n) with
+      | some (_, m) =>
+        -- still parked behind the flight: the context error; already served: the shared result
+        ({ s with fol := s.fol.filter (·.1 ≠ n) }, if heldOn s m then .cancelled else .ok m)
+      | none => (s, .none)
+  | .join n =>
+    if !(n < nn s) then (s, .badOp)
+    else
+      match s.fol.find? (·.1 = n) with
+      | some (_, m) =>
+        if heldOn s m then (s, .busy)
+        else ({ s with fol := s.fol.filter (·.1 ≠ n) }, .ok m)     -- the leader's result, shared
+      | none => (s, .none)
   | .bad => (s, .badOp)
 
 def run (s : St) : List Op → St × List Out
